@@ -3,6 +3,7 @@ package appdrv
 import (
 	"fmt"
 	rctypes "github.com/rigochain/rigo-go/ctrlers/types"
+	"time"
 
 	"github.com/rigochain/rigo-go/libs/web3"
 	"github.com/rigochain/rigo-go/types"
@@ -372,6 +373,69 @@ var Scenarios = []Directed{
 		s.Begin(Hdr{Evidence: []int{3}, Absent: []int{2}}) // 8
 		s.End()
 		s.Blocks(8, allHdr)
+	}},
+	{"many_new_accounts", []string{"C04", "C05", "C02"}, fam(0), func(s *Script) {
+		// volume inside one block: a transaction, then 150 transfers that each create an account, then the same bytes
+		// again, the sender's next transactions, and the same once more in the next block and after a restart
+		kr := s.R.KR
+		chain := s.Sc.Genesis.ChainID
+		s.Blocks(2, allHdr)
+		s.Begin(allHdr) // 3
+		first := s.B.Sign(s.TxTransfer(4, 6, "1e18"), 4, chain)
+		s.expect(OK(s.DeliverRaw(first, "", "transfer")), "a4 pays a6")
+		for i := 0; i < 150; i++ {
+			s.TransferTo(5, childAddr(kr.Addr(5), uint64(1000+i)), "1000", 0)
+		}
+		s.expect(!OK(s.DeliverRaw(first, "", "replay:transfer")), "the same bytes again after 150 new accounts")
+		s.expect(OK(s.Transfer(4, 6, "1e18")), "a4's next transaction")
+		s.expect(OK(s.Stake(4, 1, "2e18")), "and the one after it")
+		s.End()
+		s.Begin(allHdr) // 4
+		s.expect(!OK(s.DeliverRaw(first, "", "replay:transfer")), "the same bytes in the next block")
+		for i := 0; i < 40; i++ {
+			s.TransferTo(6, childAddr(kr.Addr(5), uint64(1000+i)), "7", 0)
+		}
+		s.expect(OK(s.Transfer(4, 5, "3")), "a4 again")
+		s.End()
+		s.Restart()
+		s.Begin(allHdr) // 5
+		s.expect(!OK(s.DeliverRaw(first, "", "replay:transfer")), "the same bytes after a restart")
+		s.expect(OK(s.Transfer(5, 4, "3")), "a5 still works")
+		s.End()
+		s.Blocks(1, allHdr)
+	}},
+	{"clock_probe", []string{"C01"}, fam(0), func(s *Script) {
+		// transactions whose signed creation time lies just beyond / just short of round distances from the moment of
+		// execution.  The replica check re-signs them right before it starts replica A (RefreshClockProbes); replica B
+		// executes the same bytes at least 1.1 s later: whatever compares the field with the local clock against a round
+		// threshold decides differently on the two.
+		s.Blocks(2, allHdr)
+		s.Begin(allHdr) // 3
+		for _, ms := range ClockProbeOffsets() {
+			tx := s.TxTransfer(6, 5, "1000")
+			bz := s.B.SignAt(tx, 6, s.Sc.Genesis.ChainID, time.Now().Add(time.Duration(ms)*time.Millisecond).UnixNano())
+			s.DeliverRaw(bz, "", fmt.Sprintf("clockprobe:%d", ms))
+		}
+		s.End()
+		s.Blocks(2, allHdr)
+	}},
+	{"absences_over_window", []string{"C07", "C08", "C14", "C01"}, fam(3), func(s *Script) {
+		// signing window 4, at least 2 signed: a validator misses two blocks, signs for longer than the window, misses
+		// again (the old marks have left the window by then), and again a little later - never often enough to be stopped.
+		// The record of its missed blocks is rewritten at every miss.
+		s.Blocks(2, allHdr)
+		for h := 3; h <= 18; h++ {
+			switch h {
+			case 3, 4, 9, 11, 14, 17:
+				s.Begin(Hdr{Absent: []int{2}})
+			default:
+				s.Begin(allHdr)
+			}
+			if h == 12 {
+				s.Stake(5, 2, "2e18") // another writer of the same record
+			}
+			s.End()
+		}
 	}},
 	{"restart_after_first_block", []string{"C10", "C07"}, fam(0), func(s *Script) {
 		// the very first block already changes the staking ledger (a new validator, a delegation), and the process is
